@@ -291,7 +291,7 @@ TypeOK == /\ r.pc \in Pcs /\ r.out \in {"nil", "open", "stale"}
 FinqIsDurable == Alive => \A m \in r.finq : \E n \in DOMAIN dir : DurablyIn(m, dir[n])
 
 \* Sync() is only ever reached with a file that is really open (a batch is pending only after a Write)
-SyncOnOpenFile == r.pending # <<>> \/ r.pc \in {"sy_gz", "sy_fsync"} => r.out = "open"
+SyncOnOpenFile == r.pc \in {"sy_gz", "sy_fsync", "w_nl"} => r.out = "open"
 
 \* no message is ever in two places of the pipeline, none disappears from it
 Custody == \A m \in Msgs :
@@ -309,5 +309,6 @@ KillPoints ==
   THEN LET p == <<OptCode, r.pc>> IN
        IF p \in TLCGet(3) THEN TRUE ELSE PrintT(<<"KILLPT", p>>) /\ TLCSet(3, TLCGet(3) \cup {p})
   ELSE TRUE
-InitRegs == TLCSet(3, {})
+InitK == TLCSet(3, {}) /\ Init
+SpecK == InitK /\ [][Next]_vars
 =============================================================================
